@@ -194,17 +194,23 @@ theorem tryAll_blank (length : Int) (s : Sub) (rest : Bytes) :
 
 /-! ### the record loop -/
 
-/-- what follows a section: a field name (upper case) or the terminator `//` -/
+/-- what follows a section: a field name (upper case) or the terminator `//`, and none of the six
+REFERENCE sub-field names -/
 def startsField (rest : Bytes) : Bool :=
-  match rest with
-  | c :: _ => isUpper c || c == 47
-  | [] => false
+  (match rest with
+   | c :: _ => isUpper c || c == 47
+   | [] => false) && refStop rest
 
 theorem startsField_spec (rest : Bytes) (h : startsField rest = true) :
     ∃ c r, rest = c :: r ∧ (isUpper c = true ∨ c = 47) := by
   cases rest with
   | nil => simp [startsField] at h
-  | cons c r => exact ⟨c, r, rfl, by simpa [startsField] using h⟩
+  | cons c r =>
+    simp only [startsField, Bool.and_eq_true, Bool.or_eq_true, beq_iff_eq] at h
+    exact ⟨c, r, rfl, h.1⟩
+
+theorem startsField_refStop (rest : Bytes) (h : startsField rest = true) : refStop rest = true := by
+  simp only [startsField, Bool.and_eq_true] at h; exact h.2
 
 theorem upper_ne_blank (c : UInt8) : isUpper c = true → c ≠ 32 := by
   revert c; apply byte_cases; decide +kernel
